@@ -6,7 +6,7 @@
 
   The model (Model/ExecTask.lean) is one task inside the real executor event loop;
   a schedule is any list of steps from {tick, start, stop, conf, trigger, kill,
-  await} after the LAUNCH. The theorems quantify over ALL task kinds, ALL child
+  await, giveup} after the LAUNCH. The theorems quantify over ALL task kinds, ALL child
   behaviours and ALL schedules of any length.
 
   Tie to /repo: the correspondence run drives the real eventLoop + handlers +
@@ -34,6 +34,7 @@
 -/
 import ControlModel.Gen.ExecTask
 import ControlModel.Proofs.ExecTask
+import ControlModel.Proofs.ExecGiveUp
 import ControlModel.Proofs.ExecOverlap
 
 open ExecTask
@@ -76,7 +77,19 @@ theorem C17_repairs_are_code :
                 killStopsTimer := Gen.ExecTask.basicKillStopsTimer,
                 killClaimsEntry := Gen.ExecTask.killClaimsEntryInHandler && !Gen.ExecTask.killRemovesEntryInGoroutine,
                 startOwnsCmd := Gen.ExecTask.startOwnsCmd && !Gen.ExecTask.startThroughField &&
-                  !Gen.ExecTask.reaperCopiesCmdInGoroutine } := by decide
+                  !Gen.ExecTask.reaperCopiesCmdInGoroutine,
+                launchFailKeepsLeader := Gen.ExecTask.launchEscalates && !Gen.ExecTask.launchReapsBeforeEscalation } := by
+  decide
+
+/-- What the model of the launch failure assumes about the escalation IS what the source says (go/ast):
+    ControllableTask.Launch terminates the task with doTermIntKill on its launch-failure paths, and pidExists, the
+    test doTermIntKill makes before SIGINT and before SIGKILL, turns the negative pid of a process GROUP into the pid
+    of the group's LEADER and asks for that one process (`Grp.leaderSeen`). (That no `Wait()` of Launch comes before a
+    doTermIntKill — nobody reaps the command before or while its group is escalated — is the switch
+    `launchFailKeepsLeader` of `C17_repairs_are_code`.) A pidExists that looks at the whole group flips the fact:
+    the model of the escalation then has to be redone. -/
+theorem C17_group_escalation_is_code :
+    Gen.ExecTask.launchEscalates = true ∧ Gen.ExecTask.pidExistsLooksAtLeader = true := by decide
 
 /-- The two shape facts behind the model's remaining crash / survivor steps (open findings), read off the
     source: ControllableTask.Kill uses t.rpc without a nil test, basicTaskBase.Kill signals nothing.
@@ -400,6 +413,123 @@ example :
     never codeCfg stopSpares .basic .ok [.start, .start, .stop] = false ∧
     never codeCfg stopSpares .basic .fork [.start, .await, .start, .stop] = false := by decide
 
+/-! ## a launch that the executor gives up leaves no survivors
+
+A controllable task that never opens its control port: after GRPC_DIAL_TIMEOUT the Launch goroutine reports
+TASK_FAILED and calls doTermIntKill(-pgid) on the task's process GROUP (step `giveup`). The group is the command the
+executor started (the leader: a wrapping shell, a launcher) and whatever it forked, each with its own way of treating
+SIGTERM and SIGINT (`Disp`). doTermIntKill decides whether to go on to SIGINT and to SIGKILL by pidExists(-pgid),
+which sees the LEADER only. -/
+
+/-- FULL-STRENGTH for the escalation itself, TRUE when nobody reaps the command (`C17_group_escalation_code`),
+    false when it is reaped meanwhile (`C17_group_escalation_needs_leader`): whatever the group — any disposition
+    of the leader, any number of members with any dispositions, the leader running or already a zombie — nothing of
+    it runs after doTermIntKill(-pgid). -/
+def C17_group_escalation_full (keeps : Bool) : Prop :=
+  ∀ g : Grp, g.leaderSeen = true → (escalateGroup keeps g).2.live = false
+
+/-- **The code as it is** (nobody waits for the command on the launch-failure path), for ALL groups and
+    dispositions: SIGTERM, SIGINT and SIGKILL are all sent — the dead leader stays a zombie, so both pidExists tests
+    succeed — and no member of the group is left. -/
+theorem C17_group_escalation_code :
+    C17_group_escalation_full codeCfg.launchFailKeepsLeader ∧
+    ∀ g : Grp, g.leaderSeen = true → (escalateGroup codeCfg.launchFailKeepsLeader g).1 = [.TERM, .INT, .KILL] := by
+  constructor
+  · intro g h
+    obtain ⟨_, h2, h3⟩ := escalateGroup_keeps g h
+    simp [codeCfg, Grp.live, h2, h3]
+  · intro g h; exact (escalateGroup_keeps g h).1
+
+/-- For every group and whoever reaps: the signals sent are TERM, then possibly INT, then possibly KILL. -/
+theorem C17_group_escalation_shape (keeps : Bool) (g : Grp) :
+    (escalateGroup keeps g).1 <+: [Sig.TERM, Sig.INT, Sig.KILL] ∨ (escalateGroup keeps g).1 = [Sig.TERM, Sig.KILL] := by
+  rcases escalateGroup_sigs keeps g with h | h | h | h <;> rw [h] <;> decide
+
+/-- For every group and whoever reaps: once SIGKILL was sent nothing of the group runs. What can go wrong is
+    only that the last test (`!pidExists(pid)`: return) does not see who is left — it sees the leader. -/
+theorem C17_group_escalation_kill_ends_all (keeps : Bool) (g : Grp) (h : Sig.KILL ∈ (escalateGroup keeps g).1) :
+    (escalateGroup keeps g).2.live = false :=
+  escalateGroup_kill_final keeps g h
+
+/-- With the code's constants the escalation of a group takes at most SIGTERM_TIMEOUT + SIGINT_TIMEOUT = 5 s
+    after the failure was reported (the bound the correspondence run triples before it looks for survivors). -/
+theorem C17_group_escalation_bounded :
+    Gen.ExecTask.sigtermTimeoutMs + Gen.ExecTask.sigintTimeoutMs ≤ 5000 := by decide
+
+/-- NOT the code — a command that is reaped while its group is escalated: EXACTLY what is left running, for all
+    groups. A leader that ignores both signals keeps the escalation going to SIGKILL; otherwise the escalation ends
+    when the leader does: after SIGTERM every member that ignores SIGTERM is left; for a leader that ignores
+    SIGTERM only, after SIGINT every member that ignores both is left. -/
+theorem C17_group_escalation_reaping_exact (g : Grp) :
+    (escalateGroup false g).2.live =
+      (if g.leadLive && g.lead == .ignAll then false
+       else if g.leadLive && g.lead == .ignTerm then g.members.any (fun d => d.survives .TERM && d.survives .INT)
+       else g.members.any (fun d => d.survives .TERM)) :=
+  escalateGroup_reaping_left g
+
+/-- The full-strength statement is FALSE once the command is reaped while the group is escalated: the wrapping
+    shell dies of SIGTERM and is collected, pidExists(-pgid) is false, the payload that ignores SIGTERM lives on. -/
+theorem C17_group_escalation_needs_leader : ¬ C17_group_escalation_full reapingCfg.launchFailKeepsLeader := by
+  intro h
+  have := h { lead := .obey, leadLive := true, leadZombie := false, members := [.ignTerm] } (by decide)
+  revert this; decide
+
+/-- FULL-STRENGTH, TRUE of the code as it is (`C17_giveup_terminates_code`): whatever the kind, the behaviour —
+    every group of the model — and the schedule, once the executor has given a launch up (reported it failed and
+    run its escalation) no process of the task is alive and the run did not end half-way. -/
+def C17_giveup_terminates_full (c : Cfg) : Prop :=
+  ∀ (k : Kind) (b : Beh) (ops : List Op), giveupTerminates ops (run c k b ops).obs = true
+
+/-- For every configuration in which nobody reaps the command before or while doTermIntKill runs: all kinds,
+    behaviours and schedules — in particular whether the leader of the group still runs or has ended on its own
+    (`await` before `giveup`: it is a zombie), and whatever is requested before and after. -/
+theorem C17_giveup_terminates (c : Cfg) (hc : c.launchFailKeepsLeader = true) : C17_giveup_terminates_full c := by
+  intro k b ops
+  simp only [giveupTerminates, Bool.or_eq_true, Bool.not_eq_true']
+  cases hk : gaveUpOk ops (run c k b ops).obs.res
+  · exact Or.inl rfl
+  · right
+    cases hhalt : (init c k b).2.halts
+    · rw [run_of_not_halts c k b ops hhalt] at hk ⊢
+      have hg := runFrom_gaveUpOk c _ ops (by simpa [Outcome.obs, gaveUpOk] using hk)
+      have := runFrom_gave c hc _ ops (init_inv c k b) (init_proc c k b) (init_gave c k b) hg
+      simp [Outcome.obs, this.1, this.2]
+    · rw [run_of_halts c k b ops hhalt] at hk
+      cases ops <;> simp [Outcome.obs, gaveUpOk, gaveUpFrom] at hk
+
+/-- **For the code as it is**, at full strength, no hypothesis. -/
+theorem C17_giveup_terminates_code : C17_giveup_terminates_full codeCfg :=
+  C17_giveup_terminates codeCfg rfl
+
+/-- The statement depends on that switch: with a command that is reaped while its group is escalated (NOT the
+    code) the member that ignores SIGTERM survives the launch failure — after TASK_FAILED, the terminal status,
+    has been reported. -/
+theorem C17_giveup_needs_leader : ¬ C17_giveup_terminates_full reapingCfg := by
+  intro h
+  have := h .ctl .noportkid [.giveup]
+  revert this; decide
+
+/-- Non-vacuity, and the faces of the class under both configurations: the launch failure alone, after the leader
+    has ended on its own, with requests around it; every group of the model. Under `reapingCfg` exactly the groups
+    of `C17_group_escalation_reaping_exact` keep a survivor. -/
+example :
+    let fin (c : Cfg) (b : Beh) (ops : List Op) : Bool × Option Bool :=
+      (gaveUpOk ops (run c .ctl b ops).obs.res, (run c .ctl b ops).obs.alive)
+    fin codeCfg .noportkid [.giveup] = (true, some false) ∧
+    fin codeCfg .noportmix [.stop, .giveup, .kill] = (true, some false) ∧
+    fin codeCfg .noportign [.await, .giveup] = (true, some false) ∧
+    fin codeCfg .noportkidt [.await, .giveup, .giveup] = (true, some false) ∧
+    (run codeCfg .ctl .noportmix [.giveup]).st.gsigs = [.TERM, .INT, .KILL] ∧
+    (run codeCfg .ctl .noportkid [.await]).obs.alive = some true ∧
+    fin codeCfg .occ [.giveup] = (false, some true) ∧
+    fin reapingCfg .noport [.giveup] = (true, some false) ∧
+    fin reapingCfg .noportfork [.await, .giveup] = (true, some false) ∧
+    fin reapingCfg .noportign [.giveup] = (true, some false) ∧
+    fin reapingCfg .noportign [.await, .giveup] = (true, some true) ∧
+    fin reapingCfg .noportkidt [.giveup] = (true, some true) ∧
+    fin reapingCfg .noportmix [.stop, .giveup, .kill] = (true, some true) ∧
+    (run reapingCfg .ctl .noportkid [.giveup]).st.gsigs = [.TERM] := by decide
+
 /-! ## the whole property -/
 
 /-- Every conjunct of the property at once, for every schedule that stays clear of the classes of the
@@ -429,14 +559,16 @@ theorem C17_spec_code (k : Kind) (b : Beh) (ops : List Op)
   exact C17_spec_partial codeCfg k b ops (C17_unsafe_code.2 k b) (by rw [hu]; exact h1)
     (never_of_false codeCfg _ (by intro s op; simp [killArmedIn, codeCfg]) k b ops) h3 h4
 
-/-- **The whole property including "stopping a basic task terminates the whole process group", for the code as
-    it is**: `SpecAll` for every kind, behaviour, schedule — and, the model being blind to it, every command shape —
-    that stays clear of the four request states of the open findings. -/
+/-- **The whole property including "stopping a basic task terminates the whole process group" and "a launch that
+    the executor gives up leaves no survivors", for the code as it is**: `SpecAll` for every kind, behaviour,
+    schedule — and, the model being blind to it, every command shape — that stays clear of the four request states
+    of the open findings. -/
 theorem C17_spec_all_code (k : Kind) (b : Beh) (shp : Shape) (ops : List Op)
     (h1 : never codeCfg killNoRpc k b ops = true) (h3 : never codeCfg killLive k b ops = true)
     (h4 : never codeCfg killHelpers k b ops = true) (h5 : never codeCfg stopSpares k b ops = true) :
     SpecAll k ops (runIn codeCfg k b shp ops).obs = true := by
-  simp only [SpecAll, runIn, C17_spec_code k b ops h1 h3 h4, C17_stop_terminates_code k b ops h5, Bool.and_self]
+  simp only [SpecAll, runIn, C17_spec_code k b ops h1 h3 h4, C17_stop_terminates_code k b ops h5,
+    C17_giveup_terminates_code k b ops, Bool.and_self]
 
 /-- Non-vacuity: realistic schedules meet the hypotheses of `C17_spec_code` — among them the ones that used to
     be excluded: STOP of a running basic task, two STOPs after a child that died of a signal, KILL before the
